@@ -60,6 +60,7 @@ def one_object(draw, kind, vs=None, bare=False):
     else:
         c['signals'] = {v: draw(grid_signal(0, max_samples=5)) for v in vs}
         c['cuts'] = draw(st.integers(0, 3))
+        c['overlap'] = draw(st.booleans())
     return c
 
 
@@ -94,8 +95,17 @@ def calls_of(c):
     bounds = [ts[i] for i in range(step, len(ts), step)][:ncut]
     out = []
     lo = -1.0
+    last = {}
     for hi in bounds + [float('inf')]:
-        batch = [[v, [s for s in sig[v] if lo < s[0] <= hi]] for v in used]
+        batch = []
+        for v in used:
+            piece = [list(s) for s in sig[v] if lo < s[0] <= hi]
+            if c.get('overlap') and piece and v in last:
+                # the new batch starts with the sample at which the previous one ended (operators expect this shape)
+                piece = [list(last[v])] + piece
+            if piece:
+                last[v] = piece[-1]
+            batch.append([v, piece])
         if any(b[1] for b in batch):
             out.append(('update', batch))
         lo = hi
@@ -375,12 +385,32 @@ def cand_repeat(case):
 
 
 @st.composite
+def chunked_inputs_cases(draw, tier):
+    """Dense online only: several update() calls, half of them with batches that repeat the previous last sample, and a
+    bare variable as a direct operand of a binary operator (the operators buffer and trim these lists)."""
+    c = draw(one_object('ct_on'))
+    vs = c['vars']
+    v = ('var', draw(st.sampled_from(vs)))
+    op = draw(st.sampled_from(['and', 'or', 'implies', 'implies', 'since', '+', '-', '*', 'iff', 'xor']))
+    f = from_json(c['formula'])
+    g = f if F.depth(f) <= 3 else ('var', draw(st.sampled_from(vs)))
+    kind = 'bin'
+    if op in ('iff', 'xor') or op in ('+', '-', '*'):
+        g = ('var', draw(st.sampled_from(vs)))        # FIN operands only
+    c['formula'] = (kind, op, g, v) if draw(st.booleans()) else (kind, op, v, g)
+    c['cuts'] = draw(st.integers(1, 3))
+    c['overlap'] = draw(st.booleans())
+    return c
+
+
+@st.composite
 def inputs_cases(draw, tier):
     kind = draw(st.sampled_from(KINDS + ('dt_off',)))
     return draw(one_object(kind, bare=True))
 
 
 LANES = [
+    Lane('inputs_chunked', lambda tier: chunked_inputs_cases(tier), check_inputs, 1500, 20000, cand_obj),
     Lane('inputs', lambda tier: inputs_cases(tier), check_inputs, 4000, 50000, cand_obj),
     Lane('repeat', lambda tier: repeat_cases(tier), check_repeat, 1500, 20000, cand_repeat),
     Lane('isolation', lambda tier: isolation_cases(tier), check_isolation, 1500, 20000, cand_isolation),
